@@ -78,7 +78,7 @@ def slots_in_case(lines):
             continue
         if t[0] == "arm" and len(t) > 1 and t[1].isdigit():
             out.add(int(t[1]))
-        elif t[0] in ("met", "call") and t[-1].startswith("@"):
+        elif t[0] in ("met", "call", "callx", "body") and t[-1].startswith("@"):
             out.update(parse_slots(t[-1]))
         elif t[0] == "loop" and len(t) > 3 and t[-1] != ".":
             for r in t[-1].split(";"):
@@ -110,6 +110,7 @@ class _Run:
         self.regs = {}               # name -> registration record as the harness declared it
         self.fns = {}                # (body, raises) -> callable
         self.slots = {}              # slot -> [token lists]
+        self.body_ops = {}           # body -> [token lists]: what the callable does to the registry when it runs
         self.next_rid = 0
         self.cur_rid = None
         lines = case["lines"]
@@ -117,7 +118,7 @@ class _Run:
         bodies = [l.split()[2 if l.startswith("reg ") else 4] for l in lines
                   if (l.startswith("reg ") and len(l.split()) > 2) or (l.startswith("arm ") and len(l.split()) > 4
                                                                         and l.split()[2] == "reg")]
-        self.exact_loop = any(l.startswith("arm ") for l in lines) or len(bodies) != len(set(bodies))
+        self.exact_loop = any(l.startswith(("arm ", "body ")) for l in lines) or len(bodies) != len(set(bodies))
 
     # --- engine ---------------------------------------------------------------------------------------
     def tag(self, i):
@@ -136,6 +137,7 @@ class _Run:
         self.regs.clear()
         self.fns.clear()
         self.slots.clear()
+        self.body_ops.clear()
 
     def engine(self):
         if self.mito is None:
@@ -152,6 +154,7 @@ class _Run:
             def f(*a, **k):
                 self.counter.append(body)
                 self.timeline.append(("run", body, raises, self.cur_rid))
+                self.perform(self.body_ops.get(body, []))     # a body that uses the registration API itself
                 if raises:
                     raise RuntimeError("tool body raised")
                 return body
@@ -224,12 +227,15 @@ class _Run:
                 setattr(obj, attr, {self.tag(i) for i in val})
         self.regs[name] = dict(self.regs[name], req=req, caps=caps)
 
-    def fire(self, slot):
-        for toks in self.slots.get(slot, []):
+    def perform(self, ops):
+        for toks in list(ops):
             if toks[0] == "reg":
                 self.register(toks)
             else:
                 self.unregister(toks[1])
+
+    def fire(self, slot):
+        self.perform(self.slots.get(slot, []))
 
     def args_mapping(self, key, slots):
         run = self
@@ -265,7 +271,7 @@ class C03(Prop):
                     "met-NotToolPathway", "met-TooLong", "met-RosLatched", "call-success", "call-PermissionError",
                     "call-ToolRaised", "call-UnknownTool", "loop", "loop-noschemas", "inflight"]
     assumptions = [
-        "tool bodies return or raise; they do not call back into the engine",
+        "tool bodies return or raise and may use the registration API while they run; they do not request tools from the engine",
         "evaluation of tool-call arguments executes no tool (C01); what it does to the registry through the public "
         "registration API and whether it then succeeds or raises are inputs of the model",
         "a declaration is not re-assigned on the live tool object while a request for that tool is in flight",
@@ -346,8 +352,10 @@ class C03(Prop):
                     if s not in armed:
                         armed.append(s)
                     lines.append(f"arm {s} " + (reg_line(name) if rng.random() < 0.85 else f"unreg {name}"))
+                    if nbody and rng.random() < 0.25:
+                        lines.append(f"body {rng.randint(1, nbody)} @{s}")
                 elif r < 0.55:
-                    mode = rng.choice(["forced-oxid", "forced-oxid", "auto", "auto", "forced-other", "long", "ros"])
+                    mode = rng.choice(["forced-oxid", "forced-oxid", "auto", "auto", "forced-other", "long", "ros", "digest"])
                     callee = rng.choice([f"name:{name}"] * 6 + ["notname", "notcall"])
                     a = rng.choice(["1"] * 7 + ["0", "0", f"n:{rng.choice(NAMES + ['ghost'])}"])
                     ss = slots()
@@ -374,6 +382,9 @@ class C03(Prop):
                         rounds.append(rd)
                     rs = ";".join(",".join(r_) if r_ else "-" for r_ in rounds) or "."
                     lines.append(f"loop {k} {1 if rng.random() < 0.9 else 0} {rng.choice(['uniq', 'same', 'byname'])} {rs}")
+            if armed and rng.random() < 0.15:      # search-only tail: a call object with a scripted `name` property
+                lines.append(f"callx {rng.choice(NAMES)} {rng.randint(1, 5)} @{rng.choice(armed)}")
+                lines.append(rng.choice([f"call {rng.choice(NAMES)}", f"met forced-oxid name:{rng.choice(NAMES)} 1 other"]))
             yield {"lines": lines, "note": "random"}
 
     def exhaustive(self, tier):
@@ -493,6 +504,33 @@ class C03(Prop):
                     infl.append({"lines": [f"cfg {caps_str(al)}", f"reg w 1 {caps_str(ok)} none 0 {style}",
                                            "arm 1 unreg w", f"arm 1 reg f 2 {caps_str(bad)} none 0 {style}", fl, "call w", "call f"],
                                  "note": "exhaustive in-flight removal + registration of another name"})
+        for al in ([], [0]):
+            ok, bad = al[:1], al[:1] + [2]
+            for style in "af":
+                for e1 in entries + ["loop 3 1 uniq w,w;w"]:
+                    for e2 in entries:
+                        infl.append({"lines": [f"cfg {caps_str(al)}", f"reg w 1 {caps_str(ok)} none 0 {style}",
+                                               f"arm 1 reg w 2 {caps_str(bad)} none 0 {style}", "body 1 @1", e1, e2],
+                                     "note": "exhaustive tool body that re-registers its own name with a more privileged tool"})
+                        infl.append({"lines": [f"cfg {caps_str(al)}", f"reg w 1 {caps_str(ok)} none 1 {style}",
+                                               "arm 1 unreg w", f"arm 1 reg f 2 {caps_str(bad)} none 0 {style}",
+                                               f"arm 2 reg f 3 {caps_str(ok)} none 0 {style}", "body 1 @1", "body 2 @2",
+                                               e1, e2.replace("name:w", "name:f").replace("call w", "call f").replace(" w;w", " f;f"), e2],
+                                     "note": "exhaustive raising tool body that retires itself and installs another tool"})
+        for al in ([], [0]):
+            ok, bad = al[:1], al[:1] + [2]
+            for style in "af":
+                for k in range(1, 7):
+                    for e2 in entries[:3]:
+                        infl.append({"lines": [f"cfg {caps_str(al)}", f"reg w 1 {caps_str(ok)} none 0 {style}",
+                                               f"arm 1 reg w 2 {caps_str(bad)} none 0 {style}", f"callx w {k} @1", e2],
+                                     "note": "search-only: call object whose name property re-registers at its k-th read"})
+        for al in ([], [0]):
+            for style in "af":
+                for e in ("met digest name:w 1 other", "met digest name:sqrt 1 other", "met digest name:sqrt 1 other @1"):
+                    infl.append({"lines": [f"cfg {caps_str(al)}", f"reg w 1 2 none 0 {style}", f"reg sqrt 2 2 none 0 {style}",
+                                           f"arm 1 reg w 3 - none 0 {style}", e, "call w"],
+                                 "note": "digest_glucose (legacy wrapper, forced math pathway) with registered tool names"})
         return [{"name": "container types (set/frozenset/list/tuple) of the ceiling and of the tool's declaration x entry points",
                  "cases": cont},
                 {"name": "re-registration histories: allowed/used/re-registered outside the ceiling x entry-point pairs",
@@ -531,19 +569,22 @@ class C03(Prop):
         counter = R.counter
         started = False
 
+        skipping = False
         for li, line in enumerate(case["lines"]):
             t = line.split()
             n0 = len(counter)
             R.timeline = []
+            raised = None
             start_reg = dict(R.regs)
             if t[0] == "cfg":
                 R.configure(parse_caps(t[1]), t[2] if len(t) > 2 else "set")
                 started = True
+                skipping = False
                 obs.append("ok")
             elif not started:
                 R.configure(None)
                 started = True
-                if t[0] not in ("reg", "met", "call", "loop", "unreg", "schemas", "redecl", "setal", "arm"):
+                if t[0] not in ("reg", "met", "call", "callx", "loop", "unreg", "schemas", "redecl", "setal", "arm", "body"):
                     obs.append("bad-op")
                     info.append({"ran": [], "ceiling": None, "start_reg": {}, "timeline": []})
                     continue
@@ -564,6 +605,12 @@ class C03(Prop):
             elif t[0] == "arm":
                 if len(t) >= 4 and t[1].isdigit() and ((t[2] == "reg" and len(t) >= 8) or (t[2] == "unreg" and len(t) == 4)):
                     R.slots.setdefault(int(t[1]), []).append(t[2:])
+                    obs.append("ok")
+                else:
+                    obs.append("bad-op")
+            elif t[0] == "body":
+                if len(t) == 3 and t[1].isdigit() and t[2].startswith("@"):
+                    R.body_ops.setdefault(int(t[1]), []).extend(x for sl in parse_slots(t[2]) for x in R.slots.get(sl, []))
                     obs.append("ok")
                 else:
                     obs.append("bad-op")
@@ -599,7 +646,7 @@ class C03(Prop):
                     pathway = P.OXIDATIVE
                 elif mode == "forced-oxid":
                     pathway = P.OXIDATIVE
-                elif mode == "forced-other":
+                elif mode in ("forced-other", "digest"):
                     pathway = P.GLYCOLYSIS
                 detected = []
                 hooked = mode == "auto" and hasattr(mito, "_detect_pathway")
@@ -607,8 +654,13 @@ class C03(Prop):
                     orig = mito._detect_pathway
                     mito._detect_pathway = lambda e, _o=orig: (detected.append(_o(e)), detected[-1])[1]
                 try:
-                    r = mito.metabolize(expr, pathway)
-                    res = "ok" if r.success else "fail"
+                    if mode == "digest":       # the legacy convenience wrapper (what BioAgent's 'calculate' uses)
+                        txt = mito.digest_glucose(expr)
+                        res = "fail" if isinstance(txt, str) and txt.startswith("Metabolic Failure") else "ok"
+                        r = None
+                    else:
+                        r = mito.metabolize(expr, pathway)
+                        res = "ok" if r.success else "fail"
                     if mode == "auto" and not detected and getattr(r, "pathway", None) is not None:
                         detected.append(r.pathway)          # the result names the pathway attempted
                 except Exception as e:  # property: never raises
@@ -618,7 +670,7 @@ class C03(Prop):
                         del mito._detect_pathway
                     if saved is not None:
                         mito.max_ros = saved
-                eff = {"long": "long", "ros": "ros", "forced-oxid": "oxid", "forced-other": "other"}.get(mode)
+                eff = {"long": "long", "ros": "ros", "forced-oxid": "oxid", "forced-other": "other", "digest": "other"}.get(mode)
                 if mode == "auto":
                     eff = "oxid" if detected and detected[0] == P.OXIDATIVE else "other"
                     t[4] = eff
@@ -638,11 +690,43 @@ class C03(Prop):
                 except Exception as e:
                     res = f"raise:{type(e).__name__}"
                 obs.append(f"{res} [{','.join(map(str, counter))}]")
+            elif t[0] == "callx":
+                # SEARCH ONLY (no model): a provider-made call object whose `name` is a property; the k-th read of it
+                # re-enters the registration API.  How often the code reads the name is not part of the model, so the
+                # line and everything after it answer `skip`; the oracle still judges what ran.
+                mito = R.engine()
+                k = int(t[2]) if len(t) > 2 and t[2].isdigit() else 1
+                slots = parse_slots(t[3]) if len(t) > 3 else []
+                run, nm = R, t[1]
+
+                class XCall:
+                    id = "cx"
+                    arguments = {}
+                    reads = 0
+
+                    @property
+                    def name(s):
+                        s.reads += 1
+                        if s.reads == k:
+                            for x in slots:
+                                run.fire(x)
+                        return nm
+                try:
+                    mito.execute_tool_call(XCall())
+                except Exception as e:
+                    raised = type(e).__name__
+                skipping = True
+                obs.append("skip")
             elif t[0] == "loop":
                 obs.append(self._loop(R, t))
             elif t[0] != "cfg":
                 obs.append("bad-op")
-            info.append({"ran": counter[n0:], "ceiling": R.allowed, "start_reg": start_reg, "timeline": R.timeline})
+            if skipping and t[0] != "cfg":
+                if obs[-1].startswith("raise:") or " raise:" in obs[-1]:
+                    raised = obs[-1]
+                obs[-1] = "skip"
+            info.append({"ran": counter[n0:], "ceiling": R.allowed, "start_reg": start_reg, "timeline": R.timeline,
+                         "raised": raised})
         return obs, info
 
     def _loop(self, R, t):
@@ -759,15 +843,15 @@ class C03(Prop):
                         out.append(Violation("least_privilege",
                                              f"tool body {body} declared with {[sorted(_required(r)) for r in cands]} not executed under ceiling {al}",
                                              f"executed during `{line}`", idx))
-            if o.startswith("raise:") or " raise:" in o:
-                out.append(Violation("refusal_is_reported_not_raised", "a failure result", o, idx))
+            if o.startswith("raise:") or " raise:" in o or inf.get("raised"):
+                out.append(Violation("refusal_is_reported_not_raised", "a failure result", inf.get("raised") or o, idx))
             t = line.split()
             target = None
             if t[0] == "call":
                 target = t[1]
             elif t[0] == "met" and t[2].startswith("name:"):
                 target = t[2][5:]
-            if target is not None and target in inf["start_reg"] and al is not None:
+            if target is not None and target in inf["start_reg"] and al is not None and o != "skip":
                 need = _required(inf["start_reg"][target])
                 if not need <= set(al):
                     if not o.startswith("fail") or inf["ran"]:
